@@ -575,11 +575,11 @@ impl<'a> Renderer<'a> {
                 self.tok("-");
                 // no trivia allowed between '-' and the factor
                 match &**inner {
-                    Expr::Num { v, zeros, .. } => {
+                    Expr::Num { v, zeros, radix: 10 } => {
                         let z = "0".repeat(*zeros as usize);
                         self.out.push_str(&format!("{}{}", z, v));
                     }
-                    Expr::Id { path, .. } => {
+                    Expr::Id { path, modifier: None } => {
                         for (i, comp) in path.iter().enumerate() {
                             if i > 0 {
                                 self.out.push('.');
